@@ -984,5 +984,11 @@ V('C19', 'output-dir-default-callable', 'silent', '', 'json2xml --output-dir def
   ('src/pyhf/cli/rootio.py', "@click.option('--output-dir', type=click.Path(exists=True), default='.')\n", "@click.option('--output-dir', type=click.Path(exists=True), default=Path.cwd)\n"))
 V('C19', 'basedir-default-computed-at-import', 'fire', 'C19.R7', 'xml2json --basedir default computed at import (the defect repaired by 3a7e402)',
   ('src/pyhf/cli/rootio.py', '    default=Path.cwd,\n', '    default=Path.cwd(),\n'))
+V('C11', 'nominal-yields-normalised-through-the-current-backend', 'fire', 'C11.R1', 'array-valued sample data are turned into python floats through the backend current at construction',
+  ('src/pyhf/pdf.py', '        if not len(nom) == self.config.channel_nbins[channel]:\n', '        if not isinstance(nom, list):\n            tensorlib, _ = get_backend()\n            nom = tensorlib.tolist(tensorlib.astensor(nom))\n        if not len(nom) == self.config.channel_nbins[channel]:\n'))
+V('C11', 'nominal-yields-normalised-through-the-default-backend', 'silent', '', 'array-valued sample data are turned into python floats through the default backend',
+  ('src/pyhf/pdf.py', '        if not len(nom) == self.config.channel_nbins[channel]:\n', '        if not isinstance(nom, list):\n            nom = pyhf.default_backend.tolist(pyhf.default_backend.astensor(nom))\n        if not len(nom) == self.config.channel_nbins[channel]:\n'))
+V('C05', 'fixed-poi-fit-prefers-the-models-mask', 'fire', 'C05.R2', "fixed_poi_fit takes the model's fixed mask even when the caller supplies one",
+  ('src/pyhf/infer/mle.py', '    fixed_params = [*(fixed_params or pdf.config.suggested_fixed())]\n', '    fixed_params = [*(pdf.config.suggested_fixed() or fixed_params)]\n'))
 V("C13", "code4-exponent-mask-strict", "fire", "C13.R3", "code 4 takes exponent 1 (a constant) exactly at |alpha| = alpha0",
   ("src/pyhf/interpolators/code4.py", "            exponents >= self.__alpha0, exponents, self.ones", "            exponents > self.__alpha0, exponents, self.ones"))
